@@ -129,6 +129,10 @@ def replay_one(tx):
             return res
         if sess.reg.problems:
             res["findings"].append(finding("ids", tx, okind, {"problems": sess.reg.problems[:3]}, conc=conc))
+        if act["name"] == "Copy" and want_ok and getattr(sess, "copy_returned", None) is False:
+            res["findings"].append(finding("copy_returned", tx, okind,
+                                           {"what": "the handle returned by the copying call does not denote the copy",
+                                            "keep_id": act["keep"]}, conc=conc))
         # 3. probes on the reached state
         for probe in opts.get("probes", ()):
             res["probes"] += 1
@@ -191,6 +195,8 @@ def probe_lookups(sess, tx, exp_to, conc, res, okind):
             bad(label, "container", {"raised": repr(exc)[:200]})
             continue
         n = len(members)
+        if any(m["kind"] == "feature" and not m["rl"]["data"] for m in members):
+            continue   # a feature whose data array was deleted: what its container's lookups do is left open
         want_ids = [sess.uuid[m["id"]] for m in members]
         want_names = [conc.name(m["name"]) if m["kind"] != "feature" else None for m in members]
         try:
@@ -408,7 +414,141 @@ def probe_searches(sess, tx, exp_to, conc, res, okind):
                 return
 
 
-PROBES = {"searches": probe_searches, "reopen": probe_reopen, "lookups": probe_lookups, "free_name": probe_free_name}
+def _mask_ids(tree):
+    if isinstance(tree, dict):
+        return {k: ("*" if k == "eid" else _mask_ids(v)) for k, v in tree.items()}
+    if isinstance(tree, list):
+        return [_mask_ids(v) for v in tree]
+    return tree
+
+
+def _collect(tree, key, out):
+    if isinstance(tree, dict):
+        for k, v in tree.items():
+            if k == key and not isinstance(v, (dict, list)):
+                out.append(v)
+            else:
+                _collect(v, key, out)
+    elif isinstance(tree, list):
+        for v in tree:
+            _collect(v, key, out)
+    return out
+
+
+def probe_xcopy(sess, tx, exp_to, conc, res, okind):
+    """
+    C20, other file: a top-level block / section / (link-free) array of the reached state is copied into a second file
+    with both id policies; the copy must read like the source (ids kept, or all fresh, unique and different from every
+    id of the source file), and mutating either side must not be visible on the other.
+    """
+    nixio = sess.nixio
+    state = tx["from"] if tx["to"].get("same") else tx["to"]
+    objs = {o["id"]: o for o in state["objs"]}
+    rnd = sess.rnd
+
+    def subtree(root):
+        sub, grew = {root}, True
+        while grew:
+            grew = False
+            for o in state["objs"]:
+                if o["owner"] in sub and o["id"] not in sub:
+                    sub.add(o["id"])
+                    grew = True
+        return sub
+
+    def closed(sub):
+        for i in sub:
+            o = objs[i]
+            for l in o["ls"].values():
+                if any(x not in sub for x in l):
+                    return False
+            if any(v and v not in sub for v in o["rl"].values()):
+                return False
+        return True
+
+    def bad(what, detail):
+        res["findings"].append(finding("xcopy", tx, okind, dict(detail, what=what), conc=conc))
+
+    cands = [o for o in state["objs"] if (o["kind"] in ("block", "section") and o["owner"] == 0) or o["kind"] == "array"]
+    cands = [o for o in cands if closed(subtree(o["id"]))]
+    rnd.shuffle(cands)
+    path2 = sess.path + ".copy.nix"
+    for o in cands[:2]:
+        keep = rnd.random() < 0.5
+        kind = o["kind"]
+        label = "%s/%s" % (kind, "keep_id" if keep else "fresh_id")
+        f2 = nixio.File.open(path2, nixio.FileMode.Overwrite)
+        try:
+            src = sess.obj(o["id"])
+            # expected node of the source in the projection of file 1
+            if kind == "block":
+                idx = [b["id"] for b in state["objs"] if b["kind"] == "block"].index(o["id"])
+                want = exp_to["blocks"][idx]
+                ret = f2.create_block(copy_from=src, keep_copy_id=keep)
+                getnode = lambda t: t["blocks"][0]  # noqa
+            elif kind == "section":
+                idx = [b["id"] for b in state["objs"] if b["kind"] == "section" and b["owner"] == 0].index(o["id"])
+                want = exp_to["sections"][idx]
+                ret = f2.copy_section(src, keep_id=keep)
+                getnode = lambda t: t["sections"][0]  # noqa
+            else:
+                blocks = [b["id"] for b in state["objs"] if b["kind"] == "block"]
+                bi = blocks.index(o["owner"])
+                ai = [a["id"] for a in state["objs"] if a["kind"] == "array" and a["owner"] == o["owner"]].index(o["id"])
+                want = exp_to["blocks"][bi]["data_arrays"][ai]
+                b2 = f2.create_block("dest", "t")
+                ret = b2.create_data_array(copy_from=src, keep_copy_id=keep)
+                getnode = lambda t: t["blocks"][0]["data_arrays"][0]  # noqa
+            res["xcopies"] = res.get("xcopies", 0) + 1
+            reg2 = sess.reg if keep else nm.Registry()
+            got = getnode(nm.project(f2, reg2))
+            w, g = (want, got) if keep else (_mask_ids(want), _mask_ids(got))
+            d = nm.diff(nm.strip_times(w), nm.strip_times(g))
+            if d:
+                bad(label + "/copy_differs", {"path": d[0][0], "expected": d[0][1], "observed": d[0][2]})
+                continue
+            if ret is None or ret.id != (f2.blocks[0].id if kind == "block" else f2.sections[0].id if kind == "section"
+                                         else f2.blocks[0].data_arrays[0].id):
+                bad(label + "/returned_handle", {})
+            if not keep:
+                ids2 = [x[len("unknown-id:"):] for x in _collect(got, "eid", []) if isinstance(x, str) and x.startswith("unknown-id:")]
+                known = [x for x in _collect(got, "eid", []) if isinstance(x, str) and not x.startswith("unknown-id:")]
+                if known:
+                    bad(label + "/id_of_source_reused", {"tokens": known[:4]})
+                if len(set(ids2)) != len(ids2) and kind != "block":
+                    bad(label + "/fresh_ids_not_unique", {"ids": ids2[:6]})
+            # independence: change the copy, the source file must read as before ...
+            root2 = f2.blocks[0] if kind == "block" else f2.sections[0] if kind == "section" else f2.blocks[0].data_arrays[0]
+            root2.definition = "changed in the copy"
+            if kind == "block" and len(root2.data_arrays):
+                root2.data_arrays[0][:] = [-1.0, -2.0, -3.0]
+            if kind == "array":
+                root2[:] = [-1.0, -2.0, -3.0]
+            if kind == "section" and len(root2.props):
+                root2.props[0].values = [-5, -6]
+            d = nm.diff(exp_to, nm.project(sess.nf, sess.reg))
+            if d:
+                bad(label + "/change_of_copy_visible_in_source", {"path": d[0][0], "expected": d[0][1], "observed": d[0][2]})
+                continue
+            # ... and vice versa
+            before = getnode(nm.project(f2, reg2))
+            old = src.definition
+            src.definition = "changed in the source"
+            after = getnode(nm.project(f2, reg2))
+            src.definition = old
+            d = nm.diff(before, after)
+            if d:
+                bad(label + "/change_of_source_visible_in_copy", {"path": d[0][0]})
+        except Exception as exc:  # noqa
+            bad(label + "/raises", {"raised": repr(exc)[:300]})
+        finally:
+            try:
+                f2.close()
+            except Exception:  # noqa
+                pass
+
+
+PROBES = {"xcopy": probe_xcopy, "searches": probe_searches, "reopen": probe_reopen, "lookups": probe_lookups, "free_name": probe_free_name}
 
 
 def _run_batch(batch):
@@ -583,6 +723,10 @@ def key_of(f):
         return "%s/%s/%s/%s:%s" % (f["action"], f["okind"], f["out"], f["stage"], d.get("gpath", d.get("raised", "?"))[:80])
     if f["stage"] == "search":
         return "search/%s/%s" % (d["what"], d.get("handle", "-"))
+    if f["stage"] == "xcopy":
+        return "xcopy/%s" % d["what"]
+    if f["stage"] == "copy_returned":
+        return "Copy/%s/returned_handle_is_not_the_copy/%s" % (f["okind"], "keep_id" if d.get("keep_id") else "fresh_id")
     if f["stage"] == "lookup":
         extra = ("/" + d["pool"]) if "pool" in d and d["what"].startswith(("by_name", "name_")) else ""
         return "lookup/%s/%s%s" % (d["container"], d["what"], extra)
